@@ -280,6 +280,12 @@ fn first_diff(
         if y == "?" {
             continue;
         }
+        if y == "?err" && !is_model {
+            if x.starts_with("err:") {
+                continue;
+            }
+            return Some(i);
+        }
         if is_model && !engine.model_compared(&ops[i]) {
             continue;
         }
